@@ -12,7 +12,11 @@ Inductive result := RInt (v : Z) | RBool (b : bool) | RPerm (l : list Z).
    deterministic in (seed, salt), different across salts). *)
 Inductive case :=
 | CCall (s : stream) (c : call) (r : result) (next8 : bytes)
-| CSalt (salt1 salt2 : bytes) (out1 out2 : bytes).
+| CSalt (salt1 salt2 : bytes) (out1 out2 : bytes)
+(* CSeedSalt: (seed, salt) and the first 8 stream bytes of two salted (or, both salts empty and unsalted, plain)
+   PRNG creations - one through a seed variable of its own, one through a reused variable holding seed2 at
+   call time.  Property oracle: the stream is a function of the seed's value and the salt. *)
+| CSeedSalt (seed1 seed2 : bytes) (salt1 salt2 : bytes) (out1 out2 : bytes).
 
 Definition fuel := 64%nat.
 Definition next_ok (rest : stream) (next8 : bytes) : bool := bytes_eqb (firstn 8 rest) next8.
@@ -30,5 +34,6 @@ Definition check (c : case) : bool :=
   | CCall s (KPerm n) (RPerm l) nx =>
       match perm fuel n s with Some (l', r) => list_eqb Z.eqb l' l && next_ok r nx | None => false end
   | CSalt s1 s2 o1 o2 => Bool.eqb (bytes_eqb s1 s2) (bytes_eqb o1 o2)
+  | CSeedSalt d1 d2 s1 s2 o1 o2 => implb (bytes_eqb d1 d2 && bytes_eqb s1 s2) (bytes_eqb o1 o2)
   | _ => false
   end.
